@@ -120,11 +120,13 @@ pub enum PairClass {
 
 /// default classification from the output's label and the non-checking profile's `overflowing` sibling
 pub fn class_by_label(label: &str, rel: &[(String, Out)]) -> PairClass {
-    let plain = label == "plain" || label == "ref" || label.starts_with("ref&") || label.starts_with("refv") || label.starts_with("assign") || label.ends_with(":plain");
+    let plain = label == "plain" || label == "ref" || label.starts_with("ref&") || label.starts_with("refv") || label.starts_with("assign") || label.ends_with(":plain") || label.starts_with("iter:");
     if !plain {
         return PairClass::NeverPanic;
     }
     let sib = match label.rsplit_once(':') {
+        // sum / product of the two operands overflow exactly when the operator does
+        Some(("iter", _)) => "overflowing".to_string(),
         Some((pre, _)) => format!("{}:overflowing", pre),
         None => "overflowing".to_string(),
     };
